@@ -132,6 +132,8 @@ func (self *BinaryConv) doRecurse(ctx context.Context, s string, jp int, desc *t
 					return ret, err
 				}
 				return ret, p.WriteDouble(dv)
+			} else {
+				return ret, newError(meta.ErrDismatchType, "json string can only convert to thrift STRING (or a number under String2Int64)", nil)
 			}
 
 		case types.V_ARRAY:
